@@ -216,7 +216,9 @@ func c11(r *hx.Run) {
 			fail("create-parse-back", "create request does not carry the supplied commitments / origin or its hashes are not the independent ones")
 		}
 		// ---- update
-		updPatches := []interface{}{fx.AddServicePatch("svc2", "https://example.com/2?a=1&b=<x>"), map[string]interface{}{"action": "remove-services", "ids": []interface{}{"svc1"}}}
+		// the patch list is an ordered program: the same patch occurs twice (add, remove, add again) and must arrive verbatim
+		updPatches := []interface{}{fx.AddServicePatch("svc2", "https://example.com/2?a=1&b=<x>"), map[string]interface{}{"action": "remove-services", "ids": []interface{}{"svc2"}},
+			fx.AddServicePatch("svc2", "https://example.com/2?a=1&b=<x>"), map[string]interface{}{"action": "remove-services", "ids": []interface{}{"svc1"}}}
 		rv0, _ := commitment.GetRevealValue(jwks["u0"], c.code)
 		ureq, err := client.NewUpdateRequest(&client.UpdateRequestInfo{DidSuffix: suffix, Patches: toPatches(updPatches), UpdateCommitment: commits["u1"],
 			UpdateKey: jwks["u0"], MultihashCode: c.code, Signer: libSigner(keys["u0"], kid), RevealValue: rv0, AnchorFrom: from, AnchorUntil: until})
